@@ -6,7 +6,7 @@ TS = [1, 3, 1000, 2500000, 1000000000]
 
 
 def split(script):
-    hdr, ops, i = script[:3], [], 3
+    hdr, ops, i = script[:4], [], 4
     while i < len(script):
         k = {1: 3, 2: 2, 3: 1, 4: 1, 5: 1, 6: 1}.get(script[i])
         if k is None or i + k > len(script):
@@ -25,7 +25,7 @@ def join(hdr, ops):
 def pretty(script):
     hdr, ops = split(script)
     names = {1: "add", 2: "cancel", 3: "fetch", 4: "len", 5: "time", 6: "peek"}
-    s = "n=%d t=%dns start=%dns: " % tuple(hdr)
+    s = "n=%d t=%dns start=%d unit=%dns: " % tuple(hdr)
     parts = []
     for o in ops:
         if o[0] == 1:
@@ -139,7 +139,51 @@ def gen_script(rng, maxlen=60, tie_heavy=False):
         for _ in range(len(ref.pending()) + 1):
             ops.append([3]); ref.fetch()
         ops.append([4])
-    return join([n, t, ts], ops)
+    return join([n, t, ts, 0], ops)
+
+
+def gen_far(rng):
+    """Far-future outliers beyond 2^64 bucket widths (times given in units of 2^k ns): such events are
+    added and cancelled (or left pending) but never fetched, because reaching them would take 2^64 scan
+    steps; near events around them are scheduled and fetched normally."""
+    n = rng.choice([1, 3, 7, 10, 32, 1028]); t = rng.choice([1, 3, 1000])
+    unit = 1 << rng.choice([32, 34, 36])
+    ts = rng.choice([0, 0, 1, rng.randint(1, 1000)])
+    ref = Ref(ts)
+    ops = []; pay = 100; far = []   # handle indices of far events
+    farpay = set()
+    for _ in range(rng.randint(4, 40)):
+        r = rng.random()
+        near_pending = [e for e in ref.pending() if e[2] not in farpay]
+        if r < 0.25:
+            # far: at least 2^64 * t ns ahead => time_units * unit >= 2^64 * t
+            base = ((1 << 64) * t) // unit + 1
+            time = base * rng.randint(1, 4) + rng.randint(0, 1000)
+            if time < (1 << 61) and ref.add(time, pay):
+                far.append(len(ref.handles) - 1); farpay.add(pay)
+                ops.append([1, time, pay]); pay += 1
+        elif r < 0.50:
+            time = ref.tcur + rng.choice([0, 1, 2, rng.randint(0, 50)])
+            # near events stay within a few thousand bucket widths of the clock (unit/t can be large)
+            if ((time - ref.tcur) * unit) // t <= 200000 // n + 2000 and ref.add(time, pay):
+                ops.append([1, time, pay]); pay += 1
+        elif r < 0.70 and near_pending:
+            ops.append([3]); ref.fetch()
+        elif r < 0.85 and far:
+            k = rng.choice(far)
+            ops.append([2, k]); ref.cancel(k)
+        elif r < 0.93:
+            ops.append([4])
+        else:
+            ops.append([6] if near_pending or not ref.pending() else [4])
+    # cancel every far event, then drain what is left
+    for k in far:
+        ops.append([2, k]); ref.cancel(k)
+    ops.append([4])
+    for _ in range(len(ref.pending()) + 1):
+        ops.append([3]); ref.fetch()
+    ops.append([4])
+    return join([n, t, ts, unit], ops)
 
 
 def walk(script, out):
@@ -164,18 +208,21 @@ def walk(script, out):
 
 def mechanisms(script, out):
     hdr, ops = split(script)
-    n, t, ts = hdr
+    n, t, ts, unit = hdr
+    unit = unit or 1
     m = set()
     if ts: m.add("nonzero_start")
+    if unit > 1: m.add("beyond_2^64_ns")
     ref = Ref(ts)
     for o in ops:
         if o[0] == 1:
             if o[1] == ref.tcur: m.add("add_at_current_time")
             if o[1] < ref.tcur: m.add("add_in_past")
-            if o[1] > ref.tcur and o[1] % (n * t) == 0: m.add("year_multiple")
-            if o[1] > ref.tcur and o[1] // (n * t) > ref.tcur // (n * t): m.add("later_year")
+            if o[1] > ref.tcur and (o[1] * unit) % (n * t) == 0: m.add("year_multiple")
+            if o[1] > ref.tcur and (o[1] * unit) // (n * t) > (ref.tcur * unit) // (n * t): m.add("later_year")
+            if (o[1] * unit) // t >= (1 << 64): m.add("slot_beyond_usize")
             if any(e[0] == o[1] for e in ref.pending()): m.add("tie")
-            if (o[1] - ref.tcur) // t > 1000: m.add("far_future")
+            if ((o[1] - ref.tcur) * unit) // t > 1000: m.add("far_future")
             ref.add(o[1], o[2])
         elif o[0] == 2:
             if ref.handles:
